@@ -267,7 +267,12 @@ def ev(e, env):
             return next(iter(args[0]), args[1])
     if isinstance(e, ast.Call) and not e.keywords and env.get("__index__") is not None:
         # a call of a small pure helper of the library is evaluated from the helper's own source
-        target = _helper(env["__index__"], e.func)
+        func = e.func
+        if isinstance(func, ast.Name) and env.get("__fn__") is not None:
+            d = _local_def(env["__fn__"], func)     # `alias = Cls.helper` ... `alias(..)`
+            if d is not None and isinstance(d.value, (ast.Attribute, ast.Name)):
+                func = d.value
+        target = _helper(env["__index__"], func)
         if target is not None:
             return _call(target, [ev(a, env) for a in e.args], env)
     raise Unknown(key)
@@ -438,9 +443,26 @@ def outcomes(g, fn_node, env, abort_only, memo=None, watch=None, reached=None, s
             out.add(("raise", taint))
             continue
         if watch and n.kind == "stmt" and n.ast is not None and reached is not None:
-            txt = _norm(n.ast)
-            if txt in watch:
-                reached.add((txt, taint))
+            if isinstance(watch, dict):        # label -> predicate on the statement
+                for lab_, pred_ in watch.items():
+                    if pred_(n.ast):
+                        reached.add((lab_, taint))
+            else:
+                txt = _norm(n.ast)
+                if txt in watch:
+                    reached.add((txt, taint))
+        if n.kind == "stmt" and isinstance(n.ast, ast.Expr) and isinstance(n.ast.value, ast.Call) \
+                and env.get("__index__") is not None and env.get("__an__") is not None \
+                and env.get("__depth__", 0) < 3:
+            # a call statement of a helper that only checks: walk the helper for the bound arguments;
+            # if it cannot complete, neither can this path
+            ce = dict(env)
+            ce.update(dict(loc))
+            ce["__fn__"] = fn_node
+            verdict = _callee_aborts(n.ast.value, ce)
+            if verdict is True:
+                out.add(("raise", taint))
+                continue
         if n.kind not in ("test", "loop", "stmt"):
             st += [(m, loc, taint) for m, l in n.succ if not l.startswith("exc")]
             continue
@@ -478,7 +500,14 @@ def outcomes(g, fn_node, env, abort_only, memo=None, watch=None, reached=None, s
             e2 = dict(env)
             e2.update(dict(loc))
             e2["__fn__"] = fn_node
-        if n.kind == "loop" and n.var and n.var not in pinned and n.expr is not None:
+        loop_vars = None
+        if n.kind == "loop" and n.expr is not None and isinstance(n.ast, ast.For):
+            tg = n.ast.target
+            if isinstance(tg, ast.Name):
+                loop_vars = [tg.id]
+            elif isinstance(tg, ast.Tuple) and all(isinstance(x, ast.Name) for x in tg.elts):
+                loop_vars = [x.id for x in tg.elts]
+        if loop_vars and not (set(loop_vars) & pinned):
             # a for loop over a sequence the assignment binds is walked element by element
             try:
                 items = tuple(ev(n.expr, e2))
@@ -492,7 +521,13 @@ def outcomes(g, fn_node, env, abort_only, memo=None, watch=None, reached=None, s
                     if i < len(items):
                         hash(items[i])
                         d[ik] = i + 1
-                        d[n.var] = items[i]
+                        if len(loop_vars) == 1:
+                            d[loop_vars[0]] = items[i]
+                        else:
+                            if len(items[i]) != len(loop_vars):
+                                raise TypeError("unpack")
+                            for nm_, v_ in zip(loop_vars, items[i]):
+                                d[nm_] = v_
                         lab = "T"
                     else:
                         d.pop(ik, None)
@@ -516,3 +551,60 @@ def outcomes(g, fn_node, env, abort_only, memo=None, watch=None, reached=None, s
         nxt = [(m, l) for m, l in n.succ if not l.startswith("exc")]
         st += [(m, loc, taint or (n.kind == "loop" and len(nxt) > 1)) for m, l in nxt]
     return out, both
+
+
+def _resolve_callee(call, env):
+    """FuncInfo of a call through a (possibly locally aliased) name: `f(..)`, `Cls.f(..)`,
+    `alias = Cls.f; alias(..)`."""
+    index = env["__index__"]
+    func = call.func
+    if isinstance(func, ast.Name) and env.get("__fn__") is not None:
+        d = _local_def(env["__fn__"], func)
+        if d is not None and isinstance(d.value, (ast.Attribute, ast.Name)):
+            func = d.value
+    return _helper(index, func)
+
+
+def _callee_aborts(call, env):
+    """True if the helper called with these (evaluable) arguments ends in an abort on every path."""
+    if call.keywords:
+        return None
+    fi = _resolve_callee(call, env)
+    if fi is None or fi.is_generator:
+        return None
+    try:
+        args = [ev(a, env) for a in call.args]
+    except (Unknown, TypeError, AttributeError, KeyError, IndexError):
+        return None
+    names = [x.arg for x in fi.node.args.args]
+    if len(args) != len(names):
+        return None
+    an = env["__an__"]
+    g = an.cfg(fi)
+    sub = {k: v for k, v in env.items() if k.startswith("__") and k not in ("__fn__", "__busy__")}
+    # module-level operands stay visible by their text; the callee's parameters are bound by name
+    for k, v in env.items():
+        if not k.startswith("__") and "." not in k and k[:1].isupper():
+            sub[k] = v
+    sub.update(dict(zip(names, args)))
+    sub["__depth__"] = env.get("__depth__", 0) + 1
+    cache = {}
+
+    def ao(t):
+        if t.id not in cache:
+            seen = g.reach([m for m, l in t.succ if l == "T"])
+            seen_f = g.reach([m for m, l in t.succ if l == "F"])
+            labs = []
+            if g.exit.id not in seen:
+                labs.append("T")
+            if g.exit.id not in seen_f:
+                labs.append("F")
+            cache[t.id] = labs
+        return cache[t.id]
+    out, both = outcomes(g, fi.node, sub, ao)
+    ends = {x for x, t in out}
+    if ends == {"raise"}:
+        return True
+    if "raise" not in ends:
+        return False
+    return None
